@@ -200,6 +200,9 @@ double complex _vnacommon_mldivide(double complex *x, double complex *a,
  * (number of equations of all earlier systems) + r.  With different
  * equation counts per system no simpler index formula coincides with it.
  */
+#ifdef RANK_SYMBOLIC
+static int ghost_rank;
+#endif
 static const double complex *ghost_x_base;
 static const vnacal_new_t *ghost_vnp;
 int _vnacommon_qrsolve(complex double *x, complex double *a,
@@ -234,7 +237,11 @@ int _vnacommon_qrsolve(complex double *x, complex double *a,
 	if (c < n)
 	    x[c] = 1.0;
     ++ghost_kernel_calls;
+#ifdef RANK_SYMBOLIC
+    return ghost_rank;		/* C19 call-site clause: any rank 0..n for every system */
+#else
     return n;
+#endif
 }
 
 #ifdef OVERDETERMINED
@@ -301,6 +308,29 @@ void h_simple_weight_index(void)
     ASSUME(vs_start_frequency(&vnss, 0) == 0);
     ghost_x_base = x;
     ghost_vnp = vnp;
+#ifdef RANK_SYMBOLIC
+    {
+	IN(int, rank);
+
+	ASSUME(rank >= 0 && rank <= unknowns);
+	ghost_rank = rank;
+	ghost_err_reset();
+	rc = _vnacal_new_solve_simple(&vnss, x, 2 * unknowns);
+	REACH("solve_simple returned (symbolic rank)");
+	if (rank < unknowns) {
+	    REACH("rank-deficient system");
+	    CHECK(rc == -1 && ghost_err_calls == 1 && ghost_err_category == VNAERR_MATH && errno == EDOM,
+		    "an over-determined system found rank deficient is reported once as a math error (EDOM)");
+	    CHECK(ghost_kernel_calls == 1, "and the solve stops there");
+	} else {
+	    CHECK(rc == 0 && ghost_err_calls == 0, "full-rank systems solve silently");
+	}
+	vs_free(&vnss);
+	vnacal_new_free(vnp);
+	vnacal_free(vcp);
+	return;
+    }
+#endif
 #ifdef DET_SYMBOLIC
     {
 	IN(double, det);
